@@ -279,6 +279,9 @@ class Engine:
             if isinstance(o, DictV):
                 return len(o.items) > 0
             raise OutOfSubset('truth value of an array')
+        if isinstance(v, Opt):
+            # Python truthiness of an optional value: None is false, otherwise the truth value of the value itself
+            return and_(not_(v.isnone), self.truth(v.val, st))
         return to_bool(v)
 
     def lib_unary(self, op, v, st):
@@ -961,6 +964,9 @@ class Engine:
             return
         if isinstance(test, ast.UnaryOp) and isinstance(test.op, ast.Not):
             self.refine_none(test.operand, not truth, st)
+            return
+        if isinstance(test, ast.Name) and truth and isinstance(st.env.get(test.id), Opt):
+            st.env[test.id] = st.env[test.id].val       # `if x:` taken: x is not None
             return
         if isinstance(test, ast.Compare) and len(test.ops) == 1 and isinstance(test.left, ast.Name) and \
                 isinstance(test.comparators[0], ast.Constant) and test.comparators[0].value is None:
